@@ -263,6 +263,7 @@ func (*code128Reader) DecodeRow(rowNumber int, row *gozxing.BitArray, hints map[
 	checksumTotal := startCode
 	multiplier := 0
 	lastCharacterWasPrintable := true
+	resultLengthBeforeLastCode := 0 // len(result) before the most recent code (finally the check symbol) was interpreted
 	upperMode := false
 	shiftUpperMode := false
 
@@ -285,6 +286,7 @@ func (*code128Reader) DecodeRow(rowNumber int, row *gozxing.BitArray, hints map[
 		// Remember whether the last code was printable or not (excluding CODE_STOP)
 		if code != code128CODE_STOP {
 			lastCharacterWasPrintable = true
+			resultLengthBeforeLastCode = len(result)
 		}
 
 		// Add to checksum computation (if not CODE_STOP of course)
@@ -527,6 +529,10 @@ func (*code128Reader) DecodeRow(rowNumber int, row *gozxing.BitArray, hints map[
 		} else {
 			result = result[:resultLength-1]
 		}
+	} else if len(result) > resultLengthBeforeLastCode {
+		// the check symbol was interpreted as a function code that emitted text
+		// (FNC1 under ASSUME_GS1 appends a GS): that is not part of the content either
+		result = result[:resultLengthBeforeLastCode]
 	}
 
 	left := float64(startPatternInfo[1]+startPatternInfo[0]) / 2.0
